@@ -182,8 +182,66 @@ def run(ctx):
             if n_mm <= 3:
                 rep.violation('correspondence', {'property': 'C11', 'kind': 'model-vs-implementation (runs on one instance)', 'seed': ctx.seed, 'case': c['id'],
                                                  'history': c['ops'], 'implementation': (got or '')[:2000], 'model': (hmodel.get(c['id']) or '')[:2000], 'line': c['line']})
-    cov = {'evaluations': len(cases) + len(hist), 'distinct_nontrivial': len(distinct), 'run_histories': len(hist),
-           'rule': 'non-terminating and long programs of every loop kind (while incl. empty body, for incl. step 0, recursion through call, mutually spawning scripts, waitUntil), scheduled and unscheduled, with a time limit, a loop cap and a VM age drawn at random; run with execute(start) under the virtual clock; oracle: the limit is reported (60002), the VM is empty, the run is reported failed, the end time lies in [limit, limit + slack], or — for capped / terminating programs — the program ends cleanly with exactly cap iterations; distinct by (text, limit, cap, age); in addition histories of runs on one instance with a limit (exported API): ordinary runs, one or two runs that never end of ten kinds, ordinary runs behind them; oracle: -6 for the cut-off run, 0 and no error-level diagnostic for every run behind it, status idle',
+    # stepping actions and repeated starts under a time limit (ctl verb with a limit; W = more than the limit passes while
+    # nothing executes): (a) a stepping action over a loop that does not end is cut off by the limit like a start: the VM is
+    # empty afterwards and the loop has run for about the limit, not for its 10000 capped iterations; (b) a history on a
+    # VM that keeps a halted script across a pause longer than the limit: every action measures the limit from its own
+    # start, so the history equals the one without pauses and without limit
+    sr = ctx.rng.fork('step-limit')
+    steps = []
+    for i in range(120 if quick else 1500):
+        limit = sr.choice([200, 300, 500])
+        if i % 2 == 0:
+            pre = 'l' + 'a' * sr.below(4)          # over line 1, then some instructions into the loop
+            act = sr.choice('lvS')
+            text = 'tr = [0];\n' + sr.choice(['while { true } do { tr set [0, (tr select 0) + 1] };', 'for "_i" from 0 to 1 step 0 do { tr set [0, (tr select 0) + 1] };',
+                                              'call { while { true } do { tr set [0, (tr select 0) + 1] } };'])
+            c = {'id': 'sl%d' % i, 'kind': 'cut', 'text': text, 'actions': pre + act, 'limit': limit}
+            c['line'] = 'ctl %s %s %s %s %s' % (c['id'], hexf(text), hexf(c['actions']), hexf('1,2'), hexf(str(limit)))
+            steps.append(c)
+        else:
+            text = 'tr = [];\ntr pushBack 1;\n1 + "a";\ntr pushBack 2; call { tr pushBack 3 };\ntr pushBack 4;'
+            base = ''.join(sr.weighted([('a', 3), ('l', 3), ('v', 1), ('S', 2)]) for _ in range(2 + sr.below(5)))
+            withw = ''.join(ch + ('W' if sr.chance(1, 2) else '') for ch in base)
+            c = {'id': 'sl%d' % i, 'kind': 'pause', 'text': text, 'actions': withw, 'limit': 5000, 'base': base}
+            c['line'] = 'ctl %s %s %s %s %s' % (c['id'], hexf(text), hexf(withw), hexf('1,2,3,4,4,5'), hexf('5000'))
+            c['plain'] = 'ctl sp%d %s %s %s %s' % (i, hexf(text), hexf(base), hexf('1,2,3,4,4,5'), hexf('0'))
+            steps.append(c)
+    simpl, smodel = ctx.run_pair([c['line'] for c in steps] + [c['plain'] for c in steps if 'plain' in c], timeout_ms=20000)
+    n_sl = 0
+    for c in steps:
+        got = simpl.get(c['id']) or ''
+        distinct.add(c['line'])
+        body, _, tr = got.partition(' | tr=')
+        parts = body.split(' ; ')
+        bad = None
+        if len(parts) != len(c['actions']) + 1:
+            bad = {'expected': 'one result per action', 'implementation': got[:400]}
+        elif c['kind'] == 'cut':
+            last = parts[-1].split(':')
+            m = re.match(r'\[(\d+)\]$', tr)
+            if last[1] != 'empty' or not m or int(m.group(1)) > c['limit']:
+                bad = {'expected': 'the action over a loop that does not end is cut off by the time limit of %d ms: VM empty, at most %d iterations' % (c['limit'], c['limit']),
+                       'implementation': {'last_action': parts[-1], 'iterations': tr}}
+        else:
+            plain = simpl.get('sp' + c['id'][2:]) or ''
+            nowait = ' ; '.join(p for p in parts if not p.startswith('wait:')) + ' | tr=' + tr
+            if nowait != plain:
+                bad = {'expected': 'the history without pauses and without limit: ' + plain[:600], 'implementation': got[:600]}
+        if bad:
+            n_or += 1
+            n_sl += 1
+            if n_sl <= 3:
+                rep.violation('oracle', {'property': 'C11', 'kind': 'stepping-under-a-time-limit', 'seed': ctx.seed, 'case': c['id'], 'program': c['text'],
+                                         'actions': c['actions'], 'limit_ms': c['limit'], 'difference': bad, 'line': c['line']})
+        elif smodel is not None and got != (smodel.get(c['id']) or ''):
+            n_mm += 1
+            if n_mm <= 3:
+                rep.violation('correspondence', {'property': 'C11', 'kind': 'model-vs-implementation (stepping under a time limit)', 'seed': ctx.seed, 'case': c['id'],
+                                                 'program': c['text'], 'actions': c['actions'], 'limit_ms': c['limit'],
+                                                 'implementation': got[:2000], 'model': (smodel.get(c['id']) or '')[:2000], 'line': c['line']})
+    cov = {'evaluations': len(cases) + len(hist) + len(steps), 'distinct_nontrivial': len(distinct), 'run_histories': len(hist), 'stepping_histories_under_a_limit': len(steps),
+           'rule': 'non-terminating and long programs of every loop kind (while incl. empty body, for incl. step 0, recursion through call, mutually spawning scripts, waitUntil), scheduled and unscheduled, with a time limit, a loop cap and a VM age drawn at random; run with execute(start) under the virtual clock; oracle: the limit is reported (60002), the VM is empty, the run is reported failed, the end time lies in [limit, limit + slack], or — for capped / terminating programs — the program ends cleanly with exactly cap iterations; distinct by (text, limit, cap, age); in addition histories of runs on one instance with a limit (exported API): ordinary runs, one or two runs that never end of ten kinds, ordinary runs behind them; oracle: -6 for the cut-off run, 0 and no error-level diagnostic for every run behind it, status idle; plus stepping histories under a time limit (ctl verb with a limit and a pause action): a stepping action or start over a loop that does not end is cut off by the limit (VM empty, about limit iterations), and a history that keeps a halted script across pauses longer than the limit equals the history without pauses and without limit (every action measures the limit from its own start); both compared with the model step by step',
            'samples': samples, 'oracle_failures': n_or, 'model_mismatches': n_mm, 'kinds': kinds}
     return rep.finish(cov, ['each single operator call terminates (the property\'s proviso); wall-clock slack of a single long operator call is outside the virtual clock',
                             'longer histories of API calls with every call type are explored by C18'])
